@@ -179,6 +179,7 @@ def _layouts():
         out.append(dict(dim=dim, nmark=4, variant="grid_without_fields"))
         out.append(dict(dim=dim, nmark=4, variant="same_field_name_on_two_grids"))
         out.append(dict(dim=dim, nmark=4, variant="eulerian_only"))
+        out.append(dict(dim=dim, nmark=4, variant="non_contiguous_views"))
     return out
 
 
@@ -195,11 +196,17 @@ def build(io, dim, nmark, variant, tag):
     names = ["bodyA"] + (["bodyB"] if variant in ("two_grids", "same_field_name_on_two_grids") else [])
     for gi, g in enumerate(names):
         n = nmark + gi
-        reg["grids"][g] = tokens(f"{tag}_{g}_grid", (dim, n))
+        if variant == "non_contiguous_views":  # (dim, N) views of marker-major / strided storage
+            reg["grids"][g] = tokens(f"{tag}_{g}_grid", (n, dim)).T
+        else:
+            reg["grids"][g] = tokens(f"{tag}_{g}_grid", (dim, n))
         fields = {}
         if variant != "grid_without_fields":
             sfx = "" if variant == "same_field_name_on_two_grids" else f"_{g}"
-            fields[f"force{sfx}"] = tokens(f"{tag}_{g}_force", (dim, n))
+            if variant == "non_contiguous_views":
+                fields[f"force{sfx}"] = tokens(f"{tag}_{g}_force", (dim, 2 * n))[:, ::2]
+            else:
+                fields[f"force{sfx}"] = tokens(f"{tag}_{g}_force", (dim, n))
             fields[f"pressure{sfx}"] = tokens(f"{tag}_{g}_pressure", (n,))
         reg["lag"][g] = fields
         io.add_as_lagrangian_fields_for_io(lagrangian_grid=reg["grids"][g], lagrangian_grid_name=g, **fields)
@@ -221,6 +228,11 @@ def io_round_trip(K, dim, nmark, variant):
         IO = K.repo(f"{IO_MOD}:IO")
         src = IO(dim=dim)
         reg = build(src, dim, nmark, variant, "src")
+        # the registry holds REFERENCES to live arrays: values written after registration are what gets saved
+        for g in reg["grids"]:
+            reg["grids"][g][...] = tokens(f"moved_{g}_grid", reg["grids"][g].shape)
+        for n_ in reg["eul"]:
+            reg["eul"][n_][...] = tokens(f"later_{n_}", reg["eul"][n_].shape)
         copies = {k: {n: a.copy() for n, a in d.items()} for k, d in (("eul", reg["eul"]), ("grids", reg["grids"]))}
         lag_copies = {g: {n: a.copy() for n, a in d.items()} for g, d in reg["lag"].items()}
         t = K.real("time")
@@ -304,18 +316,27 @@ def io_round_trip(K, dim, nmark, variant):
             else:
                 with h5py.File(fname, "a") as h:
                     h.create_dataset(p, data=removed)
-        for attr, delta in (("origin", 0.01), ("dx", 0.01), ("grid_size", 1)):
+        perturb = [(attr, delta, ax) for attr, delta in (("origin", 0.01), ("dx", 0.01), ("grid_size", 1))
+                   for ax in [None] + list(range(dim))]
+        for attr, delta, ax in perturb:
+            def bump(keep, delta=delta, ax=ax):
+                new = np.array(keep, copy=True)
+                if ax is None:
+                    new = new + delta
+                else:
+                    new[ax] = new[ax] + delta  # the file differs along ONE axis only
+                return new
             if sym:
                 params = f["Eulerian/Parameters"].attrs
                 keep = params[attr]
-                params[attr] = keep + delta
+                params[attr] = bump(keep)
             else:
                 with h5py.File(fname, "a") as h:
                     keep = h["Eulerian/Parameters"].attrs[attr]
-                    h["Eulerian/Parameters"].attrs[attr] = keep + delta
+                    h["Eulerian/Parameters"].attrs[attr] = bump(keep)
             dst4 = IO(dim=dim)
             build(dst4, dim, nmark, variant, "dst4")
-            K.expect_raises(f"load_rejects_different_{attr}", (ValueError,), dst4.load, fname)
+            K.expect_raises(f"load_rejects_different_{attr}[{'all axes' if ax is None else 'axis %d only' % ax}]", (ValueError,), dst4.load, fname)
             if sym:
                 dict.__setitem__(params, attr, keep)
             else:
